@@ -204,7 +204,8 @@ def run_netlist(case):
     # top-level ports in the order py4hw lists them
     ins = [p.wire for p in top.inPorts]
     outs = [p.wire for p in top.outPorts]
-    in_ids = [w.name for w in ins]
+    sig_of = {id(w): s_ for s_, w in b.wire.items()}
+    in_ids = [sig_of[id(w)] for w in ins]
     seq = []
     for vec in case['inputs']:
         d = {'i%d' % k: v & mask(desc['inputs'][k]['w']) for k, v in enumerate(vec)}
